@@ -1,7 +1,114 @@
-(* C01 -- RTMP session: every message written is read back identically. *)
-From Verif Require Import Lib.Base Lib.Sx Model.RtmpChunk.
+(* C01 -- RTMP session: every message written is read back identically.
+   Model: coq/Model/RtmpChunk.v (writer: generateBasicHeader/C0/C3 headers, WriteMessage with the
+   Set Chunk Size bookkeeping of onMessageWriten; reader: readBasicHeader, readMessageHeader,
+   readMessagePayload, the ReadMessage loop with onMessageArrivated; handshake byte movers;
+   transport = list of segments, one per transport read).
+   Property theorems only; proofs are in Proofs/RtmpChunk.v and Proofs/RtmpChunkRT.v. *)
+From Verif Require Import Lib.Base Lib.Sx Model.RtmpChunk Proofs.RtmpChunk Proofs.RtmpChunkRT.
 Open Scope N_scope.
 
-Example c01_smoke : exists w c, write_message 128 (mkmsg 5 0 9 1 [1;2;3]) = Ok (w, c).
-Proof. eexists. eexists. vm_compute. reflexivity. Qed.
-Print Assumptions c01_smoke.
+(* Domain (wf_msg): chunk stream id 2..65599, timestamp < 2^31, type < 256, stream id < 2^32,
+   1 <= |payload| < 2^24, and -- because the peer decodes types 1, 4, 5 on arrival -- a Set Chunk
+   Size body of >= 4 bytes announcing a size in [1, 2^31-1], a Window Ack Size body of >= 4 bytes,
+   a User Control body of at least the event-type-dependent length (ctl_ok).
+
+   One message, any chunk size c >= 1 in force on both sides, any reader state whose chunk stream
+   [m_cid m] has no unfinished message (the other chunk streams may be mid-message), any bytes [x]
+   and further transport reads [rest] after it: ReadMessage returns exactly m, consumes exactly
+   the bytes WriteMessage produced, leaves the other chunk streams untouched and this one idle,
+   and both sides continue with the same chunk size (the announced one after a Set Chunk Size). *)
+Theorem c01_single m c s :
+  wf_msg m -> 0 < c -> in_chunk s = c -> c_part (get_chunk (chunks s) (m_cid m)) = None ->
+  exists w s',
+    write_message c m = Ok (w, next_chunk c m) /\
+    (forall (x : bytes) (rest : inp) fuel, (length (m_payload m) < fuel)%nat ->
+       read_message fuel s ((w ++ x) :: rest) = Ok (m, s', x :: rest)) /\
+    in_chunk s' = next_chunk c m /\
+    c_part (get_chunk (chunks s') (m_cid m)) = None /\
+    (forall k, k <> m_cid m -> get_chunk (chunks s') k = get_chunk (chunks s) k).
+Proof. exact (single_message m c s). Qed.
+
+(* Every finite sequence of well-formed messages -- Set Chunk Size messages with any announced
+   size in [1, 2^31-1] at any positions included -- written by one endpoint starting from the
+   chunk size c both sides have, is read by the peer as exactly that sequence; nothing beyond the
+   written bytes is consumed.  The other direction is the same theorem for the other endpoint
+   (the two directions share no chunk state). *)
+Theorem c01_session ms : Forall wf_msg ms ->
+  forall c s, 0 < c -> in_chunk s = c -> all_idle s ->
+  exists ws s',
+    write_all c ms = map Ok ws /\
+    (forall (x : bytes) (rest : inp) fuel, Forall (fun m => (length (m_payload m) < fuel)%nat) ms ->
+       read_n fuel (length ms) s ((concat ws ++ x) :: rest) = Ok (ms, s', x :: rest)) /\
+    all_idle s' /\ 0 < in_chunk s'.
+Proof. exact (session ms). Qed.
+
+(* From NewProtocol on both sides (chunk size 128), however the transport cuts the byte stream
+   into reads [segs] (down to one byte, empty reads included): the peer's read loop yields exactly
+   the written messages and then a clean io.EOF. *)
+Theorem c01_session_segmented ms segs fuel : Forall wf_msg ms ->
+  (length ms < fuel)%nat -> Forall (fun m => (length (m_payload m) + length ms < fuel)%nat) ms ->
+  exists ws, write_all DEFCHUNK ms = map Ok ws /\
+    (flat segs = concat ws -> read_all fuel rs0 segs [] = (ms, E_EOF)).
+Proof.
+  intros W Hf Hfs.
+  destruct (session_eof ms W DEFCHUNK rs0 [] fuel) as (ws & Hw & Hr); auto; try reflexivity.
+  - exact rs0_idle.
+  - exists ws. split; [exact Hw|]. intros Hs. cbn [rev app] in Hr.
+    etransitivity; [|exact Hr]. apply read_all_same. cbn [flat concat]. now rewrite app_nil_r.
+Qed.
+
+(* read_segs_concat: what ReadMessage returns depends only on the concatenation of the
+   transport reads (value, error class, and the bytes left over) *)
+Theorem c01_segmentation fuel s i1 i2 :
+  flat i1 = flat i2 -> same_res (read_message fuel s i1) (read_message fuel s i2).
+Proof. exact (read_message_same fuel s i1 i2). Qed.
+
+(* Simple handshake: whatever 1528 random bytes the sender picks and whatever 1536 bytes it echoes,
+   the peer's ReadC0S0 / ReadC1S1 / ReadC2S2 take exactly 1 + 1536 + 1536 = 3073 bytes from the
+   transport (however segmented) and deliver them intact; the chunk stream starts right after. *)
+Theorem c01_handshake (rnd s1 tail : bytes) (i : inp) :
+  length rnd = 1528%nat -> length s1 = 1536%nat ->
+  flat i = hs_c0s0 ++ hs_c1s1 rnd ++ hs_c2s2 s1 ++ tail ->
+  exists i1 i2 i3,
+    hs_read_c0s0 i = Ok ([3], i1) /\ hs_read_c1s1 i1 = Ok (hs_c1s1 rnd, i2) /\
+    hs_read_c2s2 i2 = Ok (s1, i3) /\ flat i3 = tail /\
+    lenN (hs_c0s0 ++ hs_c1s1 rnd ++ hs_c2s2 s1) = 3073.
+Proof. exact (handshake rnd s1 tail i). Qed.
+
+(* ReadMessage never panics: any bytes, any segmentation, any state reachable from NewProtocol
+   by earlier reads (rs_ok: every unfinished message has received fewer bytes than announced),
+   and every state it returns is reachable again. *)
+Theorem rtmp_read_total fuel s i p : rs_ok s -> read_message fuel s i <> Panic p.
+Proof. exact (Proofs.RtmpChunk.rtmp_read_total fuel s i p). Qed.
+Theorem rtmp_read_reachable fuel s i m s' i' :
+  rs_ok s -> read_message fuel s i = Ok (m, s', i') -> rs_ok s'.
+Proof. exact (Proofs.RtmpChunk.rtmp_read_reachable fuel s i m s' i'). Qed.
+Theorem rtmp_initial_reachable : rs_ok rs0.
+Proof. exact rs0_ok. Qed.
+
+(* Chunk stream ids the protocol cannot encode (0 and 1 -- NewMessage() has 0 -- and > 65599) are
+   refused by the writer before any byte is written (formerly: masked to 6 bits, finding
+   writer-cid-range, fixed in 20a6c0a). *)
+Theorem c01_cid_refused c m : m_cid m < 2 \/ 65599 < m_cid m -> write_message c m = Err E_CID.
+Proof. exact (cid_refused c m). Qed.
+
+(* non-vacuity: a message with an extended timestamp on a 3-byte-form chunk stream, and a
+   Set Chunk Size announcing 2^31-1, are in the domain *)
+Example c01_wf_nonvacuous :
+  wf_msg (mkmsg 65599 16777216 9 1 [1; 2; 3]) /\ wf_msg (mkmsg 2 0 1 0 [127; 255; 255; 255]).
+Proof. split; constructor; cbn; try reflexivity; lia. Qed.
+(* ... and a concrete session: chunk size 1 announced, then a 3-byte message in 3 chunks *)
+Example c01_session_example :
+  let ms := [mkmsg 2 0 1 0 [0; 0; 0; 1]; mkmsg 5 16777215 9 1 [7; 8; 9]] in
+  read_all 10 rs0 (map (fun b => [b]) (wire_of (write_all DEFCHUNK ms))) [] = (ms, E_EOF).
+Proof. vm_compute. reflexivity. Qed.
+
+Print Assumptions c01_single.
+Print Assumptions c01_session.
+Print Assumptions c01_session_segmented.
+Print Assumptions c01_segmentation.
+Print Assumptions c01_handshake.
+Print Assumptions rtmp_read_total.
+Print Assumptions rtmp_read_reachable.
+Print Assumptions rtmp_initial_reachable.
+Print Assumptions c01_cid_refused.
